@@ -85,7 +85,7 @@ def _ops(ctx, lib, cls):
         return ctx.arr(name, n, -10.0, 10.0)
     O = {}
     O['reset_values_same_length'] = lambda s: s.reset_values(series('new%d' % s.npts, s.npts))
-    O['reset_values_shorter'] = lambda s: s.reset_values(series('new6', 6))
+    O['reset_values_shorter'] = lambda s: s.reset_values(series('new7', 7))      # 7 > filtfilt's padlen (6) so that a later butter_pass is legal
     O['add_constant'] = lambda s: s.add_constant(ctx.real('c', -10.0, 10.0))
     O['add_series'] = lambda s: s.add_series(series('ser%d' % s.npts, s.npts))      # of the CURRENT length
     O['add_signal'] = lambda s: s.add_signal(lib.Signal(series('other%d' % s.npts, s.npts), DT))
